@@ -20,16 +20,25 @@ import (
 type UnitCase struct {
 	Text   string         `json:"text"`
 	Labels map[string]int `json:"labels,omitempty"`
+	// added by the checklist audit (zero values = the plain variant: M_Unit.java between the ordinary files, once)
+	Path  string `json:"path,omitempty"`  // where the unit lives in the analysed directory
+	Twice bool   `json:"twice,omitempty"` // the project holds a second file with the same text
+	Cli   int    `json:"cli,omitempty"`   // sub-check cli: which spelling of the commands' options
 }
 
 func genUnit(t *rapid.T) UnitCase {
 	g := newGen(t)
 	g.fuel = rapid.IntRange(0, 500).Draw(t, "fuel")
 	g.spring = rapid.IntRange(0, 2).Draw(t, "framework") == 2
+	g.drawDepthLimit()
 	g.compilationUnit()
 	g.layoutAndTail()
 	g.applyExclusions()
-	return UnitCase{Text: g.render(), Labels: g.labels}
+	c := UnitCase{Labels: g.labels}
+	c.Path, c.Twice = g.drawPlace()
+	c.Cli = rapid.IntRange(0, 3).Draw(t, "cli")
+	c.Text = g.render()
+	return c
 }
 
 // applyExclusions: generator feature switches of known findings (none at present; the
@@ -97,8 +106,8 @@ func checkUnit(c UnitCase) pbt.Verdict {
 		if os.Getenv("VERIF_C09_SHOW_UNITS") != "" {
 			fmt.Printf("UNIT\n%s\n-----\n", c.Text)
 		}
-	} else if msg := judgeText(c.Text); msg != "" {
-		return pbt.Fail("%s\n--- unit ---\n%s", msg, c.Text)
+	} else if msg := judgeTextAt(c.Text, c.Path, c.Twice); msg != "" {
+		return pbt.Fail("%s\n--- unit%s ---\n%s", msg, placeNote(c), c.Text)
 	}
 	v := classify(c.Labels)
 	for l := range c.Labels {
@@ -111,6 +120,18 @@ func checkUnit(c UnitCase) pbt.Verdict {
 		v.Classes = append(v.Classes, "unit.emptyFile")
 	}
 	return v
+}
+
+// placeNote says where the unit was put when that is not the plain place.
+func placeNote(c UnitCase) string {
+	note := ""
+	if c.Path != "" {
+		note += " at " + c.Path
+	}
+	if c.Twice {
+		note += " (twice in the project)"
+	}
+	return note
 }
 
 // ---------------------------------------------------------------------------------------
@@ -278,11 +299,14 @@ func init() {
 		}
 	}
 	pbt.SetProperty("C09")
-	pbt.Describe("sub-check units: compilation units from a grammar-directed generator over the productions of the shipped JavaParser.g4 (every type kind incl. nested/local/anonymous, type parameters with bounds, all member kinds, initialiser blocks, explicit constructor calls, receiver parameters, varargs, every annotation argument form incl. the `pkg.@Ann Type` form, arrays in every position, lambdas, method references, switch statements/expressions, patterns, literals of every kind incl. text blocks, non-ASCII identifiers and literals, comments of many shapes (text lengths 0-6 around the TODO/FIXME markers, markers cut short or run on, assignee brackets open, closed, nested, empty; a comment ending the file without newline), files without package, empty files, files with only a package declaration, only imports or only `;`, module and package-info units, several top-level types, imports with a single segment, interface and annotation-type members carrying the keyword modifiers of the grammar's modifier rule (native, synchronized, transient, volatile), names that are exactly or nearly a prefix the tool looks for (get, set, is, getter, get1, $, $$ ...), members at, one below and one above the thresholds of the bad-smell pass (20 methods, 8 ifs / switches, 30 lines, 3-line if condition; also as the only content of the file), units that live in the package of the ordinary files of the 3-file project, import them, reuse their names and implement the annotated interface zz.nb.NbService), class and interface types of every dotted / parameterized form in every type position (declarations of fields, parameters, local variables, resources, enhanced-for variables; extends / implements / permits lists, bounds, casts, type arguments; created names of `new`): `T`, `T<X>`, `a.b.T`, `a.b.T<X>` (first `<` after a dot), `a.b.Outer.Inner<X>`, `Outer.Inner`, `Outer.Inner<K, V>`, `A<X>.B`, `A<X>.B<Y>`, `new a.b.T<X>()`, `new a.b.T<>()`, `new Outer.Inner<X>()`, type names that are the simple name of one of the unit's own imports or the name of an enclosing class, and uses of declared variables: the generator keeps the variables visible at each point (fields, record components, parameters incl. lambda parameters, local variables, resources, enhanced-for variables, catch parameters, pattern variables, with Java's block scoping) and a simple name in an expression is, about every second time, one of them instead of a name from the pool - as receiver of a method call or explicit generic invocation (`x.m()`, `x.a().b()`, `x.<T>m()`), as target of a method reference (`x::m`), after `this.` (`this.field.m()`), as operand, argument, array, assignment target or try resource - so that each pass's symbol tables are hit with every declared-type shape above (classes receiver.declaredAs.* count the receivers by the shape of their declared type, use.of* the uses by kind of variable); rendered with LF, CRLF or CR line ends, with or without final newline, or on as few lines as possible; valid Java syntax by construction, then filtered by the shipped lexer+parser reporting zero errors (rejections = skipped). Sub-check fixtures: every .java file under _fixtures and languages of the repository, unchanged and under token-stream rewrites (re-indentation, comment insertion at token gaps incl. the boundary shapes above, consistent identifier renaming incl. renaming a method to exactly get / set / is / $, blank-line changes, CRLF); a sweep runs each file once unchanged and once per rewrite kind. Sub-check cli: generated units through `coca analysis`, `coca bs` (plain and -s type -x ...), `coca api -f`, `coca todo` on the 3-file project: exit status 0, no Go panic / fatal error in the output, reports are JSON and still hold the ordinary files. Oracle (units, fixtures): each of the six passes (identifier, full, bad-smell AnalysisPath+IdentifyBadSmell, API scan, unused-import Analysis, todo scan) from fresh package state on a directory with the file alone and on a project with the file between ordinary files (a class, an interface with an annotated method, a Spring controller): no panic, result serialisable with encoding/json, and the ordinary files keep their entries (identity only: package/type/kind/function names, verb+uri+handler, file+line+message). Non-trivial (units, cli) = at least one production outside the conventional subset of DESIGN 3.1; distinct = hash of the production multiset. Non-trivial (fixtures) = at least one rewrite applied; distinct = hash of the rewritten text. classes = productions used (counters prod:* list every production of the generator, 0 = not reached).",
+	pbt.Describe("sub-check units: compilation units from a grammar-directed generator over the productions of the shipped JavaParser.g4 (every type kind incl. nested/local/anonymous, type parameters with bounds, all member kinds, initialiser blocks, explicit constructor calls, receiver parameters, varargs, every annotation argument form incl. the `pkg.@Ann Type` form, arrays in every position, lambdas, method references, switch statements/expressions, patterns, literals of every kind incl. text blocks, non-ASCII identifiers and literals, comments of many shapes (text lengths 0-6 around the TODO/FIXME markers, markers cut short or run on, assignee brackets open, closed, nested, empty; a comment ending the file without newline), files without package, empty files, files with only a package declaration, only imports or only `;`, module and package-info units, several top-level types, imports with a single segment, interface and annotation-type members carrying the keyword modifiers of the grammar's modifier rule (native, synchronized, transient, volatile), names that are exactly or nearly a prefix the tool looks for (get, set, is, getter, get1, $, $$ ...), members at, one below and one above the thresholds of the bad-smell pass (20 methods, 8 ifs / switches, 30 lines, 3-line if condition; also as the only content of the file), units that live in the package of the ordinary files of the 3-file project, import them, reuse their names and implement the annotated interface zz.nb.NbService), class and interface types of every dotted / parameterized form in every type position (declarations of fields, parameters, local variables, resources, enhanced-for variables; extends / implements / permits lists, bounds, casts, type arguments; created names of `new`): `T`, `T<X>`, `a.b.T`, `a.b.T<X>` (first `<` after a dot), `a.b.Outer.Inner<X>`, `Outer.Inner`, `Outer.Inner<K, V>`, `A<X>.B`, `A<X>.B<Y>`, `new a.b.T<X>()`, `new a.b.T<>()`, `new Outer.Inner<X>()`, type names that are the simple name of one of the unit's own imports or the name of an enclosing class, and uses of declared variables: the generator keeps the variables visible at each point (fields, record components, parameters incl. lambda parameters, local variables, resources, enhanced-for variables, catch parameters, pattern variables, with Java's block scoping) and a simple name in an expression is, about every second time, one of them instead of a name from the pool - as receiver of a method call or explicit generic invocation (`x.m()`, `x.a().b()`, `x.<T>m()`), as target of a method reference (`x::m`), after `this.` (`this.field.m()`), as operand, argument, array, assignment target or try resource - so that each pass's symbol tables are hit with every declared-type shape above (classes receiver.declaredAs.* count the receivers by the shape of their declared type, use.of* the uses by kind of variable), structural containers nested in each other (about every eighth unit draws alternatives down to depth 13-20 instead of 9; a chain of 2-7 member types of every kind, each with a member before and a class-typed field plus a method calling through it after the inner type; a combination of 2-5 anonymous classes, lambdas, local classes and member classes of those in a drawn order, begun in a method, a field initialiser or an initialiser block, each container declaring something before and using something after the inner one, followed by a class-typed field of the enclosing class, now and then used before it is declared; classes nesting.* count anonymousInAnonymous, anonymousInLambda, lambdaInAnonymous, namedInAnonymous, namedInLambda, anonymousInLocal, namedDepth3/4/5orMore ...), long lists just past 8, 16, 32, 64 elements (9, 17, 33, 65, 130; also 8, 16, 64) wherever the tool appends to a slice or fills a table: imports (now and then the same import again, or the same simple name from two packages), top-level types, fields, declarators of one declaration, parameters with as many arguments, arguments, annotations of one member, local variables, chained calls, operands, switch groups, catch clauses and multi-catch alternatives, array elements, enum constants, type parameters / arguments, nested blocks, implemented / extended types, anonymous classes, member types, lambdas (classes many.*), several annotations in front of one type, framework units with @Component / @Repository / @Service classes that implement an imported interface (the dependency-injection map of the API scan), framework annotations written with their package (@org.springframework.web.bind.annotation.GetMapping, @org.springframework.stereotype.Component), request-mapping arguments in the array notations (method = {RequestMethod.GET}, {GET, POST}, {}, {X,}; value = {\"/a\", \"/b\"}), handler methods written the usual way (mapping annotation, parameters annotated @RequestBody / @PathVariable / @Valid @RequestBody / final @RequestBody(required = false) / the qualified form, of unit, imported and neighbour types), names that are case variants of each other (foo, Foo, FOO as variable and as type), names of the annotations the tool looks for used as class names, names ending in this / super, a 300-character name, text-block lines that look like `#` comments of the todo scan's lexer with every marker shape, an unbalanced backtick and an unterminated `/*` in a text block; rendered with LF, CRLF or CR line ends, with or without final newline, or on as few lines as possible, the tokens separated by one blank, a tab, a run of blanks, a form feed, a mix of those or blank lines, with white space in front of the first and after the last token, now and then after a comment line of 4 200 or 66 000 bytes (plain, TODO text, TODO assignee, block comment); the unit is analysed as M_Unit.java between the ordinary files or (every sixth unit) at another place of the analysed directory (a subdirectory sorted before or after the ordinary files, 13 directories deep, src/main/java/..., a directory named pkg.java, names with blanks and non-ASCII letters, `.java`, `-p.java`, `M_Unit.java.java`, and the test-file names the Java passes skip by design: src/test/java/..., *Test.java), and every eighth unit is in the project twice (a second file with the same text); valid Java syntax by construction, then filtered by the shipped lexer+parser reporting zero errors (rejections = skipped). Sub-check fixtures: every .java file under _fixtures and languages of the repository, unchanged and under token-stream rewrites (re-indentation, comment insertion at token gaps incl. the boundary shapes above, consistent identifier renaming incl. renaming a method to exactly get / set / is / $, blank-line changes, CRLF, CR-only line ends, tabs / runs of blanks / form feeds between the tokens of a line, white space added in front of the first and after the last token or the trailing white space removed); a sweep runs each file once unchanged and once with one rewrite kind. Sub-check cli: generated units (placed and doubled like in sub-check units) through `coca analysis`, `coca bs` (plain and -s type -x ...), `coca api -f`, `coca todo` on the 3-file project, the options in one of four spellings (-p DIR; --path DIR / --path=DIR with --sort --ignore --force --count --aggregate --ext; -p=DIR -s=type -x=... -c -s -r zz.nb -e=.java,.py,.go --identify=true; a relative path with trailing slash, -x \"\", -a with a prefix longer than any URI; class cli.optionSpelling0-3): exit status 0, no Go panic / fatal error in the output, reports are JSON and still hold the ordinary files. Oracle (units, fixtures): each of the six passes (identifier, full, bad-smell AnalysisPath+IdentifyBadSmell, API scan, unused-import Analysis, todo scan) from fresh package state on a directory with the file alone and on a project with the file between ordinary files (a class, an interface with an annotated method, a Spring controller): no panic, result serialisable with encoding/json, and the ordinary files keep their entries (identity only: package/type/kind/function names, verb+uri+handler, file+line+message). Non-trivial (units, cli) = at least one production outside the conventional subset of DESIGN 3.1; distinct = hash of the production multiset. Non-trivial (fixtures) = at least one rewrite applied; distinct = hash of the rewritten text. classes = productions used (counters prod:* list every production of the generator, 0 = not reached).",
 		"value differences in the neighbours' entries caused by state carried from file to file are C07's subject and are not judged here; only presence/identity of the entries is",
 		"constructs the shipped grammar rejects are not generated (compact record constructors, varargs record components, local enums, annotated `new @A T()`, `Outer.super::m`)",
 		"the domain is the shipped grammar (the property's quantifier): keyword modifiers in front of interface members are sentences of it although javac rejects them in a later phase; sentences only the shipped grammar accepts and no Java parser does (`implements int`, `new int()`) are not generated",
-		"a fatal error (stack overflow) is detected by the driver through the case journal")
+		"a fatal error (stack overflow) is detected by the driver through the case journal",
+		"a file that begins with a byte order mark is not generated: the shipped lexer reads U+FEFF as an identifier letter and the shipped parser rejects the file",
+		"where the unit is placed only decides which files the passes read (the Java passes skip test files and read *.java only); the oracle is the same at every place: no panic, serialisable results, the ordinary files keep their entries",
+		"the CLI options added to the spellings (--count, --sort, --remove, --aggregate, --ext, --identify=true) do not change what is observed here (exit status, crash-free output, reports are JSON and hold the ordinary files); todo --git and analysis --identify=false are not used (they read a git history / an identify.json of an earlier run)")
 	pbt.Register("units", 600, 3000, genUnit, checkUnit)
 	pbt.Register("fixtures", 150, 600, genFixture, checkFixture)
 	pbt.Register("cli", 20, 40, genUnit, checkUnitCLI)
